@@ -80,6 +80,7 @@ pub struct Report {
     pub evaluations: u64,
     pub distinct_nontrivial: u64,
     enum_samples: Vec<Value>,
+    enum_stats: Stats,
 }
 
 /// Parse the command line of a property binary: `<tier>` | `--replay <file>`.
@@ -161,6 +162,7 @@ impl Report {
             evaluations: 0,
             distinct_nontrivial: 0,
             enum_samples: vec![],
+            enum_stats: Stats::default(),
         }
     }
 
@@ -224,10 +226,18 @@ impl Report {
         self.worlds.push(w);
     }
 
+    /// Outcome histogram entry of a stateless enumeration (counted by `require` like BFS outcomes).
+    pub fn enum_op(&mut self, kind: &str, ok: bool) {
+        self.enum_stats.op(kind, ok);
+    }
+    pub fn enum_count(&mut self, k: &str, n: u64) {
+        self.enum_stats.count(k, n);
+    }
+
     /// Vacuity rule (DESIGN §2.3): these operation kinds must have succeeded / been refused at
     /// least once somewhere in the run, otherwise the check reports a machinery error.
     pub fn require(&mut self, must_ok: &[&str], must_refuse: &[&str]) {
-        let mut agg = Stats::default();
+        let mut agg = self.enum_stats.clone();
         for w in &self.worlds {
             agg.merge(&w.stats);
         }
@@ -243,7 +253,7 @@ impl Report {
         }
     }
     pub fn require_counter(&mut self, names: &[&str]) {
-        let mut agg = Stats::default();
+        let mut agg = self.enum_stats.clone();
         for w in &self.worlds {
             agg.merge(&w.stats);
         }
@@ -366,6 +376,8 @@ impl Report {
         }
         if self.evaluations > 0 {
             coverage["stateless_case_evaluations"] = json!(self.evaluations);
+            coverage["stateless_outcomes"] = json!(self.enum_stats.ops.iter().map(|(k, (a, b))| (k.clone(), json!({"ok": a, "refused": b}))).collect::<BTreeMap<_, _>>());
+            coverage["stateless_counters"] = json!(self.enum_stats.counters);
         }
         for (k, v) in &self.extra {
             coverage[k] = v.clone();
